@@ -7,12 +7,12 @@ PROP = {
     "level": "proof",
     "technique": "Coq models of xmlSeqToMapParser (over RawToken lists) and of MapSeq.Xml/XmlIndent/mapToXmlSeqIndent/elemListSeq.Less (items) + "
                  "round-trip theorem over abstract documents with the sort-by-sequence-number lemma (any entry order) + correspondence by vm_compute on "
-                 "real RawToken streams + Go-side round-trip oracle on NewMapXmlSeq/Xml/XmlIndent/BeautifyXml/NewMapFormattedXmlSeq",
+                 "real RawToken streams + go2v translation of NewMapXmlSeq / NewMapFormattedXmlSeq / xmlSeqToMap / xmlSeqToMapParser / BeautifyXml / MapSeq.Xml / XmlIndent / mapToXmlSeqIndent from the current xmlseq.go, each proved equal to the model (GenProofs/PureG13, PureG15, PureG17, PureG25-31, PureG39) + Go-side round-trip oracle on NewMapXmlSeq/Xml/XmlIndent/BeautifyXml/NewMapFormattedXmlSeq",
     "design_ref": "DESIGN.md section 6, C04",
     "assumptions": XML_ASSUME + [
         "rawtoks_of_items (Spec/SeqSpec.v) states what Decoder.RawToken returns on the emitted items (names compared as written, the five predefined entities unescaped); it is compared with the real RawToken stream of every indented / beautified output of the run",
         "sort.Sort is modelled as Go's insertion sort with Less(i,j) = seq_i <= seq_j; on pairwise distinct sequence numbers (all the theorem needs) every sorting algorithm agrees, ties are never generated because their outcome depends on hash-iteration order",
     ],
     "level_text": "Executable Coq models of the sequence-preserving decoder and encoder, tied to the current /repo on real RawToken streams (decoder: Map, error class, panic; compact encoder: bytes; indented encoder and BeautifyXml: RawToken stream), with machine-checked theorems: the round trip (decode, then Xml / XmlIndent / BeautifyXml with any blank indentation) reproduces the normalised RawToken stream for every document of the property's domain (unbounded; text alone or before child elements), sorting by sequence number recovers document order for every entry order, attributes come back in their original order, BeautifyXml is XmlIndent after NewMapXmlSeq.",
-    "level_note": "BeautifyXml and NewMapXmlSeq re-translated by go2v on every run and proved to be the compositions the model is stated with (C04_beautify_code, C04_new_map_xml_seq_code); Trusted: Coq kernel + vm_compute; encoding/xml tokenizer, fmt and sort as environment; hand-written models validated by correspondence on every run. The defect the machinery found on the pinned tree (text before child elements made the encoders panic in elemListSeq.Less) was repaired by fix 3cc484a; the models follow the repaired code and the theorem covers the full domain. The round-trip theorem is stated for the model's own entry order of the decoded MapSeq (deep permutation invariance of the whole encoder is C16's statement; the sort lemma is proved for every order). XmlCheckIsValid is kept off in the MapSeq cases (C05).",
+    "level_note": "BeautifyXml and NewMapXmlSeq re-translated by go2v on every run and proved to be the compositions the model is stated with (C04_beautify_code, C04_new_map_xml_seq_code); xmlSeqToMap (decoder creation and configuration) and NewMapFormattedXmlSeq likewise (C04_xml_seq_to_map_code_is_model, C04_new_map_xml_seq_code_is_model, C04_new_map_formatted_xml_seq_code[_is_model]; package regexp is the environment function ext_regexp_ReplaceAll applied to the pattern text, arbitrary in the theorems); Trusted: Coq kernel + vm_compute; encoding/xml tokenizer, fmt and sort as environment; hand-written models validated by correspondence on every run. The defect the machinery found on the pinned tree (text before child elements made the encoders panic in elemListSeq.Less) was repaired by fix 3cc484a; the models follow the repaired code and the theorem covers the full domain. The round-trip theorem is stated for the model's own entry order of the decoded MapSeq (deep permutation invariance of the whole encoder is C16's statement; the sort lemma is proved for every order). XmlCheckIsValid is kept off in the MapSeq cases (C05).",
 }
